@@ -56,6 +56,9 @@ type cfgT struct {
 	LCs      []lcT
 	Compiled bool // router.WithRouteCompilation: must not change any outcome (not a model input)
 	ViaApp   bool // routes registered through app.App / app.VersionGroup (app/version_group.go): same outcome
+	// WarmupAfter > 0: an explicit Warmup() after that many routes have been registered, the rest is registered
+	// afterwards, still before the first request (allowed; they go straight into the trees): same outcome
+	WarmupAfter int
 
 	vers []string // generator only: versions that have a tree
 }
@@ -166,8 +169,11 @@ func build(k caseT) (r *router.Router, err error) {
 		}
 		r.Version(lc.Ver, lo...)
 	}
-	for _, rt := range k.R {
+	for ri, rt := range k.R {
 		rt := rt
+		if k.C.WarmupAfter > 0 && ri == k.C.WarmupAfter {
+			r.Warmup()
+		}
 		h := func(c *router.Context) {
 			if o, ok := c.Request.Context().Value(obsKeyT{}).(*obsT); ok { // per request: handlers are shared
 				o.ran = append(o.ran, rt)
@@ -487,6 +493,9 @@ func emitObs(id string, k caseT, o obsT, st *hx.Stats) string {
 		if k.C.ViaApp {
 			st.Count("registered_through_app")
 		}
+		if k.C.WarmupAfter > 0 {
+			st.Count("explicit_warmup_between_registrations")
+		}
 	}
 	return l.String() + hx.Comment(k)
 }
@@ -764,6 +773,7 @@ func genCase(r *hx.Rand) caseT {
 	c.Now = 1750000000 + int64(r.Intn(2000))*86400
 	c.Compiled = r.Chance(1, 3)
 	c.ViaApp = r.Chance(1, 6)
+	warm := r.Chance(1, 3)
 	c.LCs = []lcT{}
 	for _, v := range verPool {
 		if !r.Chance(2, 5) {
@@ -822,7 +832,26 @@ func genCase(r *hx.Rand) caseT {
 		}
 	}
 	k.R = dedupRoutes(k.R)
+	if warm && len(k.R) >= 2 {
+		c.WarmupAfter = r.Range(1, len(k.R)-1)
+		if r.Chance(1, 2) { // the routes registered after the warm-up: same version trees as before it, new paths
+			hx.Shuffle(r, k.R)
+		}
+	}
 	k.Q = genReq(r, &k)
+	if c.WarmupAfter > 0 && r.Chance(2, 3) { // mostly ask for a route registered after the warm-up
+		rt := k.R[r.Range(c.WarmupAfter, len(k.R)-1)]
+		keep := k.Q
+		k.Q = genReq(r, &k)
+		if !rt.Versioned || rt.Path == "" {
+			k.Q = keep
+		} else {
+			k.Q.Method = rt.Method
+			if !strings.HasSuffix(k.Q.Path, rt.Path) {
+				k.Q.Path = rt.Path
+			}
+		}
+	}
 	return k
 }
 
@@ -982,6 +1011,19 @@ func fixedCases() []caseT {
 		witness(qv, []lcT{{Ver: "v1", HasSunset: true, Sunset: 1750000000 - 86400}}, true, reqT{Method: "GET", Path: "/users"}),
 		// K13d: optional white space before the parameter separator
 		witness(acc2, nil, false, reqT{Method: "GET", Path: "/users", Hdr: [][2]string{{"Accept", "application/vnd.api.v2+json ;q=0.9"}}}),
+		// seeded C13-7 class: static version routes, explicit Warmup, more routes for the same version+method, request them
+		func() caseT {
+			k := witness(qv, nil, false, reqT{Method: "GET", Path: "/items", RawQuery: "v=v2"})
+			k.R = append(k.R, routeT{Versioned: true, Ver: "v2", Method: "GET", Path: "/items"}, routeT{Versioned: true, Ver: "v1", Method: "GET", Path: "/items"})
+			k.C.WarmupAfter = 2
+			return k
+		}(),
+		func() caseT {
+			k := witness(qv, nil, false, reqT{Method: "GET", Path: "/items"}) // reached as the default version
+			k.R = append(k.R, routeT{Versioned: true, Ver: "v1", Method: "GET", Path: "/items"})
+			k.C.WarmupAfter = 2
+			return k
+		}(),
 		// boundaries: deprecated with future sunset; sunset exactly now
 		witness(qv, []lcT{{Ver: "v1", Deprecated: true, HasSunset: true, Sunset: 1750000000 + 86400, Migration: "https://d/m"}}, true, reqT{Method: "GET", Path: "/users"}),
 		witness(qv, []lcT{{Ver: "v1", Deprecated: true, HasSunset: true, Sunset: 1750000000}}, true, reqT{Method: "GET", Path: "/users"}),
